@@ -3,7 +3,7 @@ import datetime
 import re
 
 import yaml
-from symex.hlib import Job, reach, fail, exc_sig, not_a_finding, pick
+from symex.hlib import Job, reach, fail, exc_sig, not_a_finding, pick, untraced, restore_library_state, ensure_library_snapshot
 from harness.emitlib import Sink, STYLES, FLOWS
 
 P = 'C16'
@@ -115,6 +115,36 @@ def fixed_point(k: int, style_i: int, flow_i: int, canonical: bool, sort_keys: b
     return 'ok'
 
 
+OPTSETS = [dict(), dict(allow_unicode=True), dict(default_style='"'), dict(default_flow_style=True), dict(canonical=True), dict(width=10, indent=4),
+           dict(sort_keys=False), dict(default_style='|', allow_unicode=True), dict(explicit_start=True, version=(1, 1)), dict(line_break='\r\n', allow_unicode=True)]
+HTABLE = ['caf\xe9', {'\xe9': ['na\xefve', '\u20ac 5']}, 'x' * 30 + ' ' + 'y' * 30, {'b': 1, 'a': [True, None]}, ['multi\nline\n', ' lead'], {'\U0001f600': '\x85'}]
+
+
+def same_in_any_process(k: int, a: int, b: int, load_between: bool) -> str:
+    """the text written for a value under an option set does not depend on what the process dumped before: the value is first
+    dumped under option set a (and read back), then under option set b; the latter must be the text a pristine library writes
+    (the yaml package's module- and class-level containers are put back to their import-time contents in between)"""
+    x = pick(k, HTABLE)
+    oa, ob = pick(a, OPTSETS), pick(b, OPTSETS)
+    with untraced():
+        ensure_library_snapshot()       # (concrete replay: the interpreter is fresh, this is the import-time state)
+    try:
+        first = yaml.safe_dump(x, **oa)
+        if load_between:
+            yaml.safe_load(first)
+        got = yaml.safe_dump(x, **ob)
+        with untraced():
+            restore_library_state()
+        want = yaml.safe_dump(x, **ob)
+    except Exception as e:
+        not_a_finding(e)
+        return fail(P, exc_sig(e), k=k)
+    reach()
+    if got != want:
+        return fail(P, 'HISTORY the text dumped for a value depends on an earlier dump in the same process', k=k, a=a, b=b)
+    return 'ok'
+
+
 def anchors(k0: int, k1: int, k2: int, a0: int, a1: int, a2: int, b0: int, b1: int, b2: int) -> str:
     """anchor names depend on the document alone (id001..idN per document, same graph -> same names)"""
     kinds, A, B = [k0, k1, k2], [a0, a1, a2], [b0, b1, b2]
@@ -172,6 +202,10 @@ def jobs(tier):
         js.append(Job('fixed-point/style%d' % st, fixed_point,
                       [lambda k, style_i, flow_i, canonical, sort_keys, _s=st: style_i == _s and 0 <= k < NT and 0 <= flow_i <= 2],
                       budget=250, bounds='%d values x style %r x 3 flow styles x canonical x sort_keys' % (NT, STYLES[st])))
+    js.append(Job('same-in-any-process', same_in_any_process,
+                  [lambda k, a, b, load_between: 0 <= k < len(HTABLE) and 0 <= a < len(OPTSETS) and 0 <= b < len(OPTSETS)], budget=250,
+                  bounds='%d values (non-ASCII, long, nested) x every ordered pair of %d option sets: dump under the first, then under the second, '
+                         'compared with the second on a pristine library' % (len(HTABLE), len(OPTSETS))))
     for a in range(4):
         for k in range(2):
             js.append(Job('anchors/k0=%d/a0=%d' % (k, a), anchors,
